@@ -21,3 +21,13 @@ class PrologSyntaxError(CompilerError):
         self.line = line
         self.column = column
         self.message = msg
+
+class GeneratedCodeError(CompilerError):
+    '''Error thrown when the source cannot be expressed in Python, for example
+    because a clause is too long or too deeply nested.'''
+
+    def __init__(self, filename, msg):
+        self.filename = filename
+        self.line = 0
+        self.column = 0
+        self.message = msg
